@@ -11,6 +11,7 @@ from torch import Tensor
 from linear_operator.operators._linear_operator import IndexType, LinearOperator
 
 from linear_operator.utils.broadcasting import _matmul_broadcast_shape
+from linear_operator.utils.generic import _to_helper
 from linear_operator.utils.getitem import _compute_getitem_size
 from linear_operator.utils.memoize import cached
 
@@ -27,7 +28,7 @@ class ZeroLinearOperator(LinearOperator):
     def __init__(
         self, *sizes: Tuple[int, ...], dtype: Optional[torch.dtype] = None, device: Optional[torch.device] = None
     ):
-        super(ZeroLinearOperator, self).__init__(*sizes)
+        super(ZeroLinearOperator, self).__init__(*sizes, dtype=dtype, device=device)
         self.sizes = list(sizes)
 
         self._dtype = dtype or torch.get_default_dtype()
@@ -55,11 +56,11 @@ class ZeroLinearOperator(LinearOperator):
 
     def _get_indices(self, row_index: IndexType, col_index: IndexType, *batch_indices: IndexType) -> torch.Tensor:
         new_size = _compute_getitem_size(self, batch_indices + (row_index, col_index))
-        return torch.zeros(*new_size)
+        return torch.zeros(*new_size, dtype=self._dtype, device=self._device)
 
     def _getitem(self, row_index: IndexType, col_index: IndexType, *batch_indices: IndexType) -> LinearOperator:
         new_size = _compute_getitem_size(self, batch_indices + (row_index, col_index))
-        return ZeroLinearOperator(*new_size)
+        return ZeroLinearOperator(*new_size, dtype=self._dtype, device=self._device)
 
     def _matmul(
         self: Float[LinearOperator, "*batch M N"],
@@ -209,7 +210,14 @@ class ZeroLinearOperator(LinearOperator):
 
     @cached
     def to_dense(self: Float[LinearOperator, "*batch M N"]) -> Float[Tensor, "*batch M N"]:
-        return torch.zeros(*self.sizes)
+        return torch.zeros(*self.sizes, dtype=self._dtype, device=self._device)
+
+    def to(self, *args, **kwargs) -> LinearOperator:
+        device, dtype = _to_helper(*args, **kwargs)
+        return self.__class__(*self.sizes, dtype=dtype or self._dtype, device=device or self._device)
+
+    def type(self, dtype: torch.dtype) -> LinearOperator:
+        return self.__class__(*self.sizes, dtype=dtype, device=self._device)
 
     def transpose(self, dim1: int, dim2: int) -> LinearOperator:
         sizes = self.sizes.copy()
@@ -217,7 +225,7 @@ class ZeroLinearOperator(LinearOperator):
         sizes[dim1] = sizes[dim2]
         sizes[dim2] = tmp
 
-        return ZeroLinearOperator(*sizes)
+        return ZeroLinearOperator(*sizes, dtype=self._dtype, device=self._device)
 
     def __add__(
         self: Float[LinearOperator, "... #M #N"],
